@@ -216,6 +216,23 @@ pub fn plan(tier: Tier) -> Plan {
             }));
         }
     }
+    for k in [8u32, 16, 24] {
+        p.units.push(unit("root-delta-exactly-at-2^8-2^16-2^24-(calibrated-family)", format!("delta 2^{}", k), move |st, rep| {
+            for off in [-1i64, 0, 1] {
+                match super::c01::delta_boundary_kvs(((1i64 << k) + off) as usize) {
+                    Ok(kvs) => {
+                        st.nontrivial += 1;
+                        st.count("calibrated_delta_cases", 1);
+                        do_case(&kvs, Front::RawInsert, DEFAULT_GEOM, 0, st, rep);
+                    }
+                    Err(msg) => {
+                        eprintln!("{}", msg);
+                        std::process::exit(2);
+                    }
+                }
+            }
+        }));
+    }
     p.units.push(unit("twin-wide-nodes-under-tiny-caches", "twins".into(), move |st, rep| {
         for (_, kvs) in twin_family() {
             st.nontrivial += 1;
